@@ -107,8 +107,8 @@ def check_app(case, ctx):
     if got != want:
         raise Violation("C12/%s/value-differs" % app, "%s = %r, BIP85 defines %r (path %s)" % (what, got, want, R.fmt_path(want_path)))
     if log is not None:
-        if len(log) == 0:
-            ctx.count("derive_path-not-observed")
+        if len(log) != 1 or len(log[0]) != len(want_path):
+            ctx.count("derive_path-not-observed-as-one-call")
         elif log != [want_path]:
             raise Violation("C12/%s/path" % app, "%s derived %s, specified path is %s"
                             % (what, [R.fmt_path(p) for p in log], R.fmt_path(want_path)))
